@@ -14,3 +14,11 @@ func (c *Ctx) abstractMulDiv(x, y string) bool {
 	isConst := func(s string) bool { return strings.HasPrefix(s, "#x") || strings.HasPrefix(s, "#b") || strings.HasPrefix(s, "(_ bv") }
 	return !isConst(x) && !isConst(y)
 }
+
+// abstractCopyContent: contract option abstract=copycontent - copy() and []byte(string) still
+// yield their element counts, but the contents of the destination are left unconstrained (a
+// sound over-approximation). For obligations about offsets and lengths only: the quantified
+// content facts of chained copies otherwise dominate the solver time.
+func (c *Ctx) abstractCopyContent() bool {
+	return c.con != nil && strings.Contains(c.con.Opts["abstract"], "copycontent")
+}
